@@ -886,10 +886,11 @@ def model_ops(sc, cx):
 
 
 def account_bytes(e) -> bytes:
-    """reward account of a withdrawal entry (testnet): header e0 (key) / f0 (script) ‖ credential hash"""
+    """reward account of a withdrawal entry: header e0 (key) / f0 (script) | network of the scenario ‖ credential hash"""
+    net = int(S.NET.value)
     if "script" in e:
-        return b"\xf0" + spec_hash(e["script"])
-    return b"\xe0" + bytes(S.vkh(e["stake"]).payload)
+        return bytes([0xf0 | net]) + spec_hash(e["script"])
+    return bytes([0xe0 | net]) + bytes(S.vkh(e["stake"]).payload)
 
 
 def cost_tables(cx):
@@ -918,7 +919,7 @@ def model_request(sc, run):
         for r in b._redeemer_list:
             ev.append([str(r.tag.value), str(r.index), str(r.ex_units.mem), str(r.ex_units.steps)])
     tabs = cost_tables(cx)
-    return {"op": "rd.build", "net": "0", "ops": model_ops(sc, cx), "selected": selected, "ev": ev,
+    return {"op": "rd.build", "net": str(int(S.NET.value)), "ops": model_ops(sc, cx), "selected": selected, "ev": ev,
             "use_map": not sc["x"]["use_list"], "remove_dup": True, "carried": carried,
             "cost_models": [[str(l), [[n.encode().hex(), str(v)] for n, v in t.items()]] for l, t in tabs.items()],
             "dflt": cbor2.dumps(pc.plutus.COST_MODELS, default=default_encoder).hex()}
